@@ -110,6 +110,27 @@ def outputStage (o : Output) (s : RunStats) (timesZero : Bool) : Out :=
 def outputOfRun (o : Output) (target : Str) (src : ν → Str) (st : St ν ω) (timesZero : Bool) : Out :=
   outputStage o (statsOf target src st) timesZero
 
+/-! ### the cache write at the very end of `main` (K25) -/
+
+inductive MainOut where
+  | ok
+  | fatal
+  | crash (exc : String)
+  deriving Repr, DecidableEq
+
+/-- `main` after the threshold gate: the output stage, then `if config.arguments.cache_file is not None:
+write_cache_file(…)`. `cache = none`: no `-C`; `some w`: `-C PATH` with `w` = "mkdir + write_text succeed". Since fix
+bcdf6de `write_cache_file` turns an `OSError` into `error.fatal("unable to write the cache file …")`; before it
+(`fixed = false`) the exception escaped (known finding K25: PATH a directory, a dangling link, below a file). -/
+def mainTail (fixed : Bool) (o : Output) (s : RunStats) (timesZero : Bool) (cache : Option Bool) : MainOut :=
+  match outputStage o s timesZero with
+  | .crash e => .crash e
+  | .ok =>
+    match cache with
+    | none => .ok
+    | some true => .ok
+    | some false => if fixed then .fatal else .crash "OSError"
+
 /-! ### Tie A: the source expressions this model transcribes (`Generated.C07.statsExprs` must equal this list) -/
 
 /-- (site, unparsed expression) of: `read.__enter__`, the assembly of `RattrStats` in `file.py`, every `digits`
